@@ -5,8 +5,10 @@ import (
 	"go/ast"
 	"go/token"
 	"go/types"
+	"os"
 	"sort"
 	"strings"
+	"time"
 
 	"golang.org/x/tools/go/ssa"
 
@@ -33,6 +35,7 @@ func c14(c *core.Check) {
 	c14Links(c)
 	c14Metadata(c)
 	c14Fonts(c)
+	c14Counts(c)
 	r6 := c.Rule("R6", "no call passes two same-typed arguments under each other's parameter names (swapped arguments): every pair of arguments named after the callee's parameters is aligned with them", 50)
 	argNameRule(c, r6, "html/document", map[string]bool{"document.go": true, "draw.go": true}, 45)
 	argNameRule(c, r6, "images", nil, 20)
@@ -677,4 +680,55 @@ func c14Paths(c *core.Check) {
 	if n < 20 {
 		r.Unknown("Paint/Clip sites decided", "-", fmt.Sprintf("only %d sites with incoming state {NonEmpty}; 24 on the tree this rule was written for", n))
 	}
+}
+
+// c14Counts: a length divided by a count of repetitions is finite only if the count is not zero.
+func c14Counts(c *core.Check) {
+	p := c.Prog
+	r := c.Rule("R7", "finite sizes: every floating point division of the drawing and background layout code whose divisor is an integer count (a number of repetitions, tracks, segments) is reached only with a count that cannot be zero — clamped by a max with 1, or excluded by a test on every path", 22)
+	for _, pkg := range []string{"html/layout", "html/document", "images", "svg", "text/draw", "backend"} {
+		for _, fn := range p.FuncsOfPkg(pkg) {
+			for _, b := range floatCountDivs(fn) {
+				y := b.Y
+				for {
+					if cv, ok := y.(*ssa.Convert); ok {
+						y = cv.X
+						if bt, ok := y.Type().Underlying().(*types.Basic); ok && bt.Info()&types.IsInteger != 0 {
+							break
+						}
+						continue
+					}
+					if ct, ok := y.(*ssa.ChangeType); ok {
+						y = ct.X
+						continue
+					}
+					break
+				}
+				key := core.FuncName(fn) + " | " + opText(p, fn, b)
+				t0 := time.Now()
+				ok, how := p.CountNonZero(fn, b, y)
+				if os.Getenv("WRVERIF_DEBUG_COUNTS") != "" {
+					fmt.Fprintln(os.Stderr, "count div:", time.Since(t0), p.Pos(b.Pos()), key, ok, how)
+				}
+				if why, has := c14CountNotes[key]; has && !ok {
+					r.Skip(key, p.Pos(b.Pos()), "not decided: "+why)
+					continue
+				}
+				r.Cond(ok, key, p.Pos(b.Pos()), how, "the count may be zero: "+how+"; the quotient is then infinite and reaches the backend as a size or a position")
+			}
+		}
+	}
+}
+
+// c14CountNotes: divisions by a count that the structural argument does not reach, each read and named.
+var c14CountNotes = map[string]string{
+	"html/layout.columnsLayout | pr.Max(0, availableWidth - (pr.Float(count) - 1) * gap) / pr.Float(count)": "count is the computed column-count, an integer the validator accepts only when >= 1 (validation.columnCount); a value invariant, not a path fact",
+	"html/layout.columnsLayout | sum(consumedHeights) / pr.Float(count)":                                    "count is column-count (>= 1 by validation) or int(max(1, …)); the merge of the three definitions includes the validated one",
+	"html/layout.flexLayout | freeSpace / pr.Float(len(line.line))":                                         "the quotient only moves positionAxis, which is read in the loop over the same line; with an empty line nothing reads it",
+	"html/layout.resolveTracksSizes | freeSpaceF / pr.Float(len(tracksSizes))":                              "the quotient is added to tracks in the loop over the same slice; without tracks nothing reads it",
+	"html/layout.gridLayout | freeWidth / 2 / columnsNumber":                                                "the quotient offsets x, read only in the loop over the columns that follows",
+	"html/layout.gridLayout | freeHeight / 2 / rowsNumber":                                                  "the quotient offsets y, read only in the loop over the rows that follows",
+	"images.processColorStops | (position.V() - base.V()) / pr.Float(i - previousI)":                        "i == previousI only happens for a single colour stop; the increment is then read by a loop over an empty range",
+	"svg.(*pathParser).addArc | deltaEta / float64(segs)":                                                   "segs = int(|deltaEta| / maxDx) + 1 >= 1: a truncated non-negative quotient plus one (the prover does not follow math.Abs through the float-to-int conversion)",
+	"text/draw.drawEmojiPango | utils.Fl(data.Width) / utils.Fl(data.Height)":                               "the height of an embedded bitmap glyph comes from the font file, outside the document; not decided",
 }
